@@ -35,7 +35,7 @@ ASSUMPTIONS = [
     "the calculators are deterministic functions of the configuration (harness calculators)",
     "PCG64 accepts any non-negative integer seed; seeds tested: 0, 1, 2**32-1, 2**63, 2**64+1 (pairs that collide under a 32-, 63- or 64-bit truncation) and seeds derived from VERIF_SEED",
 ]
-REQUIRED = {"twin_runs_compared": 55, "fresh_process_twins": 6, "seed0_runs": 15, "steps_compared": 1400, "distinct_seed_pairs": 20, "tripwire_armed": 1}
+REQUIRED = {"reassigned_twins_compared": 30, "twin_runs_compared": 55, "fresh_process_twins": 6, "seed0_runs": 15, "steps_compared": 1400, "distinct_seed_pairs": 20, "tripwire_armed": 1}
 SHARD_TIMEOUT = {"quick": 900, "thorough": 3000}
 
 TRIP: dict = {"calls": []}
@@ -131,9 +131,109 @@ def install_tripwires():
 
 
 # ----------------------------------------------------------------------------- runs
-def run_stream(w, seed, steps, perturb_seed=None):
-    """-> list of per-step digests (length steps+1), info dict."""
+def detuned(w):
+    """A copy of the workload with every re-assignable setting off its value, and the list of re-assignments that bring a
+    simulation built from the copy back to the configuration of `w` through documented attributes only."""
+    import copy
+
+    w2 = copy.deepcopy(w)
+    todo = []
+    for key, attr, f in (("T", "temperature", lambda x: x * 1.37 + 11.0), ("P", "pressure", lambda x: x * 0.6 + 0.003), ("mu", "chemical_potential", lambda x: x + 0.21)):
+        if key in w and (key != "P" or w["driver"] in ("Isobaric", "Isotension")) and (key != "mu" or w["driver"] == "GrandCanonical"):
+            w2[key] = f(w[key])
+            todo.append(("sim", attr, w[key]))
+    if w["driver"] == "Isotension" and w.get("S") is not None:
+        w2["S"] = (np.array(w["S"]) * 0.5).tolist()
+        todo.append(("sim", "external_stress", np.array(w["S"], dtype=float)))
+    if w["driver"] == "ForceBias":
+        w2["delta"] = w.get("delta", 0.1) * 1.5
+        todo.append(("sim", "delta", w.get("delta", 0.1)))
+    if w["driver"] == "AdaptiveForceBias":
+        w2["delta"] = w.get("delta", 0.2) * 1.4
+        w2["min_delta"] = w.get("min_delta", 0.02) * 0.5
+        todo.append(("sim", "max_delta", w.get("delta", 0.2)))
+        todo.append(("sim", "min_delta", w.get("min_delta", 0.02)))
+        # the current step length is state, not a setting: it starts at the middle of the range the driver was built with
+        todo.append(("sim", "delta", 0.5 * (w.get("min_delta", 0.02) + w.get("delta", 0.2))))
+    # a move object registered under two names is one object in a live simulation and two after a rebuild from a
+    # dictionary: settings of such moves are left alone (re-tuning one name would mean different things in the two)
+    aliased = {e["move"].get("id") for e in w.get("table", []) if e["move"].get("t") == "ref"}
+    for e2, e in zip(w2.get("table", []), w.get("table", [])):
+        e2["probability"] = e.get("probability", 1.0) * 0.5 + 0.1
+        todo.append(("entry", e["name"], "probability", e.get("probability", 1.0)))
+        m, m2 = e["move"], e2["move"]
+        if m.get("id") in aliased and m.get("id") is not None:
+            continue
+        if m.get("t") == "D" and isinstance(m.get("op"), dict) and "step" in m["op"]:
+            m2["op"]["step"] = m["op"]["step"] * 1.3
+            todo.append(("op", e["name"], "step_size", m["op"]["step"]))
+        if m.get("t") == "C" and isinstance(m.get("op"), dict) and "mv" in m["op"]:
+            m2["op"]["mv"] = m["op"]["mv"] * 1.5
+            todo.append(("op", e["name"], "max_value", m["op"]["mv"]))
+        if m.get("t") == "E":
+            m2["bias"] = min(0.95, m.get("bias", 0.5) * 0.7 + 0.05)
+            todo.append(("move", e["name"], "bias_towards_insert", m.get("bias", 0.5)))
+        if m.get("t") == "H":
+            m2["dt"] = m.get("dt", 1.0) * 1.5
+            m2["steps"] = m.get("steps", 5) + 2
+            todo.append(("verlet", e["name"], m.get("dt", 1.0), m2["dt"], m.get("steps", 5)))
+    return w2, todo
+
+
+def retune(mc, todo):
+    for item in todo:
+        if item[0] == "sim":
+            setattr(mc, item[1], item[2])
+        elif item[0] == "entry":
+            setattr(mc.moves[item[1]], item[2], item[3])
+        elif item[0] == "op":
+            setattr(mc.moves[item[1]].move.operation, item[2], item[3])
+        elif item[0] == "move":
+            setattr(mc.moves[item[1]].move, item[2], item[3])
+        elif item[0] == "verlet":
+            integ = mc.moves[item[1]].move.operation
+            integ.dt = integ.dt / item[3] * item[2]  # the attribute's unit read off the object itself
+            integ.max_steps = item[4]
+        elif item[0] == "verlet_raw":
+            integ = mc.moves[item[1]].move.operation
+            integ.dt, integ.max_steps = item[2], item[3]
+
+
+def detune_values(mc, todo):
+    """Current values of everything `todo` would assign, as a todo list of its own (to put them back later)."""
+    back = []
+    for item in todo:
+        if item[0] == "sim":
+            v = getattr(mc, item[1])
+            back.append(("sim", item[1], np.array(v, copy=True) if isinstance(v, np.ndarray) else v))
+        elif item[0] == "entry":
+            back.append(("entry", item[1], item[2], getattr(mc.moves[item[1]], item[2])))
+        elif item[0] == "op":
+            back.append(("op", item[1], item[2], getattr(mc.moves[item[1]].move.operation, item[2])))
+        elif item[0] == "move":
+            back.append(("move", item[1], item[2], getattr(mc.moves[item[1]].move, item[2])))
+        elif item[0] == "verlet":
+            integ = mc.moves[item[1]].move.operation
+            back.append(("verlet_raw", item[1], integ.dt, integ.max_steps))
+    return back
+
+
+def run_stream(w, seed, steps, perturb_seed=None, reassign=False):
+    """-> list of per-step digests (length steps+1), info dict.  With reassign=True the simulation is built from a
+    de-tuned copy of the workload and brought to the workload's configuration by re-assigning documented attributes."""
     from qv import sims
+
+    todo = []
+    excursion = None
+    if reassign == "excursion":
+        # built as the workload says; after a third of the run every setting is assigned another value and at once put
+        # back (in the opposite order): the configuration is the same again, nothing may remember the excursion
+        w_off, todo_back = detuned(w)
+        excursion = (w_off, todo_back)
+    elif reassign:
+        w, todo = detuned(w)
+        if seed % 2:
+            todo = todo[::-1]
 
     log, traj, rst = io.StringIO(), io.StringIO(), io.StringIO()
     kw = {"logfile": log, "logging_interval": 1}
@@ -144,6 +244,7 @@ def run_stream(w, seed, steps, perturb_seed=None):
         kw["restart_file"] = rst
     TRIP["calls"].clear()
     mc, info = sims.build({k: v for k, v in {**w, "seed": seed}.items() if k != "notraj"}, **kw)
+    retune(mc, todo)
     if perturb_seed is not None:
         np.random.seed(perturb_seed % 2**32)
         pyrandom.seed(perturb_seed)
@@ -159,6 +260,13 @@ def run_stream(w, seed, steps, perturb_seed=None):
     verdicts = {"True": 0, "False": 0, "None": 0}
     pos0 = mc.atoms.get_positions().copy()
     for step in mc.irun(steps):
+        if excursion is not None and len(stream) == max(1, steps // 3):
+            w_off, todo_back = excursion
+            back = detune_values(mc, todo_back)
+            mc_off, _ = sims.build({k: v for k, v in {**w_off, "seed": seed}.items() if k != "notraj"})
+            away = detune_values(mc_off, todo_back)
+            retune(mc, away)
+            retune(mc, back[::-1])
         stream.append(dig())
         if is_mc:
             for _ in step:
@@ -206,6 +314,21 @@ def run(spec):
         rec.count("steps_compared", steps)
         if seed == 0:
             rec.count("seed0_runs")
+        if si in (0, 5) and not spec.get("nseeds"):
+            # "the same configuration" reached another way: built with other settings, then every setting re-assigned
+            # through the documented attributes (temperature, pressure, stress, chemical potential, step lengths, weights,
+            # biases, time step): same seed, same trajectory
+            try:
+                for how in (True, "excursion"):
+                    s4, _ = run_stream(w, seed, steps, reassign=how)
+                    rec.evaluations += 1
+                    rec.count("reassigned_twins_compared")
+                    d4 = first_diff(s1, s4)
+                    if d4 is not None:
+                        kind = "settings-put-back-after-an-excursion-in-mid-run" if how == "excursion" else "built-with-other-settings-then-re-assigned"
+                        rec.viol(f"C06/configuration-reached-by-reassignment-differs/{w['driver']}/{kind}", f"same seed {seed}, same configuration reached another way ({kind.replace('-', ' ')}): diverges from the directly built simulation at step {d4}", {"workload": spec["name"], "driver": w["driver"], "seed": seed, "first_divergent_step": d4, "how": kind})
+            except Exception as ex:  # noqa: BLE001
+                rec.viol(f"C06/raised/{w['driver']}/{type(ex).__name__}", f"re-assigning the settings raised {type(ex).__name__}: {ex}", {"workload": spec["name"], "seed": seed})
         nontrivial = (i1["verdicts"]["True"] > 0 and i1["verdicts"]["False"] > 0) or (w["driver"].endswith("ForceBias") and i1["moved"])
         if nontrivial:
             rec.case(spec["name"], seed, "global-rng-perturbed")
